@@ -80,8 +80,8 @@ func runC17(c *ctx) error {
 			ans = "panic"
 			c.res.Fail(core.OracleFailure{What: "FullSource panicked", Input: s})
 		}
-		// the model declines '%' and '?' (outside the documented forms); say so on the Go side too
-		if strings.ContainsAny(s, "%?") && s != "" && !strings.ContainsAny(s[:1], "/.\\") {
+		// the model declines '%' (escapes, outside the documented forms); say so on the Go side too
+		if strings.ContainsAny(s, "%") && s != "" && !strings.ContainsAny(s[:1], "/.\\") {
 			ans = "outside-model"
 			c.res.Hist("outside-model")
 		}
